@@ -45,13 +45,29 @@ def enc(idx):
     return out
 
 
+class LazyHandle:
+    """What a lazy store's __getitem__ returns: no I/O yet; np.asarray(handle) performs (and logs) the read."""
+
+    def __init__(self, store, idx, out, problem):
+        self._store, self._idx, self._out, self._problem = store, idx, out, problem
+        self.shape = out.shape
+        self.dtype = out.dtype
+        self.ndim = out.ndim
+
+    def __array__(self, dtype=None, copy=None):
+        out = self._store._log_read(self._idx, self._out, self._problem)
+        out = np.array(out)
+        return out.astype(dtype) if dtype is not None else out
+
+
 class RecStore:
     """A non-NumPy array-like source that bounds-checks and logs every read.
 
     NumPy would silently clip an out-of-range slice; a real chunked store may not.
     """
 
-    def __init__(self, data, chunks=None, shards=None, lock=None, allow_step=False, allow_fancy=False, name="store"):
+    def __init__(self, data, chunks=None, shards=None, lock=None, allow_step=False, allow_fancy=False, name="store", lazy=False):
+        self.lazy = lazy
         self._data = np.asarray(data)
         self.shape = self._data.shape
         self.dtype = self._data.dtype
@@ -112,6 +128,13 @@ class RecStore:
     def __getitem__(self, idx):
         problem = self._check(idx)
         out = self._data[idx]
+        if self.lazy:
+            # the bytes are fetched when the handle is converted, the way lazily indexed backend adapters behave:
+            # that is the moment the read is logged (with the lock state of that moment)
+            return LazyHandle(self, idx, out, problem)
+        return self._log_read(idx, out, problem)
+
+    def _log_read(self, idx, out, problem):
         locked = None
         if self._guard is not None:
             try:
